@@ -221,13 +221,10 @@ def rule_flags(ctx: Ctx, repo: Repo) -> None:
     ctx.check(("apply", "--omit-existing-annotations") not in found, "R-C13.4", main.fq, "`apply` has no omit flag", construct=str(sorted(found)))
     ah = repo.fn("monkeytype.cli", "apply_stub_handler")
     ctx.functions.add(ah.fq)
-    cs = [c for c in calls_in(ah.node) if dotted(c.func) == "apply_stub_using_libcst"]
-    ok = len(cs) == 1
-    if ok:
-        callee = repo.fn("monkeytype.cli", "apply_stub_using_libcst")
-        a = bound_argument(callee, cs[0], "overwrite_existing_annotations")
-        ok = a is not None and norm(a) in ("args.existing_annotation_strategy == ExistingAnnotationStrategy.IGNORE", "ExistingAnnotationStrategy.IGNORE == args.existing_annotation_strategy")
-    ctx.check(ok, "R-C13.4", ah.fq, "apply overwrites existing annotations exactly when the strategy is IGNORE", construct="; ".join(norm(c)[:160] for c in cs))
+    from .c15 import overwrite_by_strategy
+    for member, (got, want) in overwrite_by_strategy(repo).items():
+        ctx.check(got == want, "R-C13.4", ah.fq, "apply overwrites existing annotations exactly when the strategy is IGNORE",
+                  construct=f"strategy {member}: overwrite_existing_annotations={got}, expected {want}")
 
 
 def rule_forwarding(ctx: Ctx, repo: Repo) -> None:
